@@ -518,7 +518,36 @@ func c19Set(r *core.Run) {
 	fIntro := p.Field("capability", "VersionRange", "Introduced")
 	fRem := p.Field("capability", "VersionRange", "Removed")
 	okInv, whyInv := false, "no check of lower against upper bound before contains"
+	// the check may live in a helper that SetCapabilities calls before contains and whose error it returns
+	// (one level); inside the helper the comparer must be one of its parameters (the target's comparer handed on)
+	boundsFns := []*ssa.Function{fn}
 	for _, c := range core.Calls(fn) {
+		h := core.StaticCallee(c)
+		if h == nil || h == fn || !core.InModule(h) || len(h.Blocks) == 0 {
+			continue
+		}
+		hc, isCall := c.(*ssa.Call)
+		if !isCall || !core.Dominates(hc, cc) {
+			continue
+		}
+		if e, _ := errResult(hc); e == nil || !errNilGuard(core.GuardsAt(cc), hc) {
+			continue
+		}
+		boundsFns = append(boundsFns, h)
+	}
+	var boundCalls []ssa.CallInstruction
+	for _, bf := range boundsFns {
+		for _, c := range core.Calls(bf) {
+			if bf != fn {
+				// in a helper the comparer has to be a parameter
+				if _, isParam := c.Common().Value.(*ssa.Parameter); !isParam {
+					continue
+				}
+			}
+			boundCalls = append(boundCalls, c)
+		}
+	}
+	for _, c := range boundCalls {
 		call, ok := c.(*ssa.Call)
 		if !ok || call.Call.StaticCallee() != nil || call.Call.IsInvoke() || len(call.Call.Args) != 2 {
 			continue
